@@ -202,7 +202,7 @@ pub fn panic_msg(e: Box<dyn std::any::Any + Send>) -> String {
 }
 
 /// One assembly-mode (or real-mode) clock key with a watchdog.  Returns None on a hang.
-fn key_clock_watchdog(m: &Machine, limit: Duration) -> Option<Result<Machine, String>> {
+pub fn key_clock_watchdog(m: &Machine, limit: Duration) -> Option<Result<Machine, String>> {
     let mut c = m.clone();
     let (tx, rx) = mpsc::channel();
     std::thread::spawn(move || {
